@@ -182,7 +182,11 @@ func (e *ExecutorEngine) executeSubscription(buf *graphql.EngineResultWriter, id
 
 func (e *ExecutorEngine) handleNonSubscriptionOperation(ctx context.Context, id string, executor Executor, eventHandler EventHandler) {
 	defer func() {
-		e.subCancellations.Cancel(id)
+		// a cancelled context means the operation was stopped and its id released already; the id
+		// may belong to a new operation by now, which must not be cancelled from here
+		if ctx.Err() == nil {
+			e.subCancellations.Cancel(id)
+		}
 		err := e.executorPool.Put(executor)
 		if err != nil {
 			e.logger.Error("subscription.Handle.handleNonSubscriptionOperation()",
